@@ -446,8 +446,7 @@ theorem T_C14_renumber_quad_counterexamples :
     `update`, regenerated from the *current* source with `ast` on every run (`cbv/tables/c14.py`; one string per
     statement, `depth:text`, locals renamed a0, a1, …), are the ones the model (`hexSide`, `quadSide`, `c2c`, `G`,
     `degenerate`, `cellQualities`, `junctionQuality`) was transcribed from: the neighbour-or-side-centre choice of
-    `c2c`, the clip before `arccos`, the three `q_scale` terms with their constants `(1.25, 0.35, 0.8)`,
-    `(1.5, 0.25, 0.15)`, `(3, 2.5, 3)`, `min edge + VSMALL`, the `RuntimeWarning → ValueError` conversion; `edge_pairs`
+    `c2c`, the clip before `arccos`, the three `q_scale` terms (their constants are tied by value: `T_C14_qscale_tie`), `min edge + VSMALL`, the `RuntimeWarning → ValueError` conversion; `edge_pairs`
     in `get_edge_lengths`; corners 0, 1, 3 of `QuadCell.normal`; `(i-1) % 4, i, (i+1) % 4` of the quad corner angle;
     the `np.roll(±1)` and the `+ VSMALL` guards of the hexahedron's normals and corner sides.  A change of any of
     these breaks this proof obligation. -/
@@ -468,13 +467,13 @@ theorem T_C14_source_skeleton :
        "3:a9 = a1 - a7.center",
        "2:a10 = a9 / np.linalg.norm(a9)",
        "2:a11 = 180 * np.arccos(np.clip(np.dot(self.get_side_normals(a8), a10), -1.0, 1.0)) / np.pi",
-       "2:a0 += np.sum(q_scale(1.25, 0.35, 0.8, a11))",
-       "2:a0 += np.sum(q_scale(1.5, 0.25, 0.15, abs(self.get_inner_angles(a8))))",
+       "2:a0 += np.sum(q_scale(#, #, #, a11))",
+       "2:a0 += np.sum(q_scale(#, #, #, abs(self.get_inner_angles(a8))))",
        "1:a12 = self.get_edge_lengths()",
        "1:a13 = max(a12)",
        "1:a14 = min(a12) + VSMALL",
        "1:a15 = np.log10(a13 / a14)",
-       "1:a0 += np.sum(q_scale(3, 2.5, 3, a15))",
+       "1:a0 += np.sum(q_scale(#, #, #, a15))",
        "0:except RuntimeWarning",
        "1:raise ValueError(f'Degenerate Cell: {self}') from RuntimeWarning",
        "0:finally",
@@ -550,5 +549,37 @@ theorem T_C14_source_skeleton :
        "1:return self.quality",
        "0:return a2.quality"] := by
   decide
+
+/-- **Interpreted tie of the weighting constants.**  The `(base, exponent, factor)` triples of the three `q_scale(…)` calls
+    of `CellBase.quality` and `VSMALL` are read off the current source on every run (`c14QScale`, `c14Vsmall`, exact
+    values of the floats) and the model's `G` / `G0` compute with them (`qsAt`, `vsmall`) — nothing is pinned.  What the
+    property needs of them holds for the regenerated values: there are exactly three triples of three constants, every
+    base is `> 1` and every exponent and factor `> 0` — each term `factor·base^(exponent·x) − factor` is zero at `x = 0`
+    and increasing in `x` (so a larger angle defect or aspect ratio never lowers the value) — and the guard is positive. -/
+theorem T_C14_qscale_tie :
+    qTablesOk = true ∧
+    (∀ t ∈ CBV.Gen.c14QScale, ∀ b e f, t = [b, e, f] →
+      (1 : Rat) < mkRat b.1 b.2 ∧ (0 : Rat) < mkRat e.1 e.2 ∧ (0 : Rat) < mkRat f.1 f.2) ∧
+    (0 : Rat) < mkRat CBV.Gen.c14Vsmall.1 CBV.Gen.c14Vsmall.2 := by
+  refine ⟨by decide +kernel, ?_, by decide +kernel⟩
+  intro t ht b e f h
+  have hall : CBV.Gen.c14QScale.all (fun t => match t with
+      | [b, e, f] => decide ((1 : Rat) < mkRat b.1 b.2) && decide ((0 : Rat) < mkRat e.1 e.2) && decide ((0 : Rat) < mkRat f.1 f.2)
+      | _ => false) = true := by decide +kernel
+  have := List.all_eq_true.mp hall t ht
+  subst h
+  simp only [Bool.and_eq_true, decide_eq_true_eq] at this
+  exact ⟨this.1.1, this.1.2, this.2⟩
+
+/-- the model's functions are the ones that use the regenerated constants, for every signature -/
+theorem T_C14_qscale_model (quad : Bool) (eps : Float) (s : Sig) :
+    G quad eps s =
+      fsum (s.tris.map (fun t => qScaleWith (qsAt 0) (degOfCos
+        (if quad then ratToFloat t.nc / (Float.sqrt (ratToFloat t.nn) * Float.sqrt (ratToFloat t.cc))
+         else ratToFloat t.nc / ((Float.sqrt (ratToFloat t.nn) + eps) * Float.sqrt (ratToFloat t.cc)))))) +
+      fsum (s.corners.map (fun t => qScaleWith (qsAt 1) (Float.abs (degOfCos
+        (if quad then ratToFloat t.nc / (Float.sqrt (ratToFloat t.nn) * Float.sqrt (ratToFloat t.cc))
+         else ratToFloat t.nc / ((Float.sqrt (ratToFloat t.nn) + eps) * (Float.sqrt (ratToFloat t.cc) + eps))) - 90.0)))) +
+      qScaleWith (qsAt 2) (Float.log10 (Float.sqrt (ratToFloat (maxL s.edges)) / (Float.sqrt (ratToFloat (minL s.edges)) + eps))) := rfl
 
 end CBV.C14
